@@ -698,6 +698,7 @@ func checkC17(r *Run) {
 			}
 		}
 	}
+	c17BytesWrappers(r)
 	// URIParamResolve (the classification the list wrappers use): exactly the six names, case-insensitively
 	c17Resolve(r)
 	// the same lists at the very end of a buffer of exactly 65,535 bytes (the documented addressing limit): verdict,
@@ -969,5 +970,108 @@ func init() {
 			return []*Violation{{Property: prop, Site: site, Rule: "same-result-at-the-end-of-a-65535-byte-buffer", Class: fmt.Sprintf("total=%d", total), Case: c}}
 		}
 		return nil
+	}
+}
+
+// evalC17ByteWrapper: the byte-class rule through the list wrappers, whose effective mode is what the caller's flags
+// say (ParseAllURIParams adds the ';' separator only; ParseAllURIHdrs adds the '&' separator and the URI-header mode).
+func evalC17ByteWrapper(x byte, inValue, hdrs bool, flags uint) (vs []*Violation) {
+	up := !hdrs && flags&uint(sipsp.POptTokURIParamF) != 0
+	sep := byte(';')
+	if hdrs {
+		sep = '&'
+	}
+	structural := []byte{sep, '=', ' ', '\t', '\r', '\n'}
+	if flags&uint(sipsp.POptTokQmTermF) != 0 || up {
+		structural = append(structural, '?')
+	}
+	if flags&uint(sipsp.POptTokCommaTermF) != 0 {
+		structural = append(structural, ',')
+	}
+	for _, s := range structural {
+		if x == s {
+			return nil
+		}
+	}
+	allowed := (x >= '0' && x <= '9') || (x >= 'a' && x <= 'z') || (x >= 'A' && x <= 'Z') || strings.IndexByte("-_.!~*'()%[]/:+$", x) >= 0 ||
+		(x == '&' && up) || (x == '?' && !up)
+	xs := string([]byte{x})
+	name, val := "n"+xs+"m", "vw"
+	if inValue {
+		name, val = "nm", "v"+xs+"w"
+	}
+	txt := name + "=" + val + string([]byte{sep}) + "z=1"
+	if flags&uint(sipsp.POptInputEndF) == 0 {
+		txt += "\r\nX"
+	}
+	buf := []byte(txt)
+	site := "ParseAllURIParams"
+	if hdrs {
+		site = "ParseAllURIHdrs"
+	}
+	pos := "name"
+	if inValue {
+		pos = "value"
+	}
+	mk := func(rule, detail string) {
+		c := mkCase("C17bytew", site, &Cfg{Flags: flags}, []byte{x}, nil)
+		c.Extra = map[string]any{"in_value": inValue, "hdrs": hdrs}
+		vs = append(vs, &Violation{Property: "C17", Site: site, Rule: rule, Class: fmt.Sprintf("%s/flags=%#x", pos, flags), Detail: detail, Case: c})
+	}
+	defer recoverTo3(func(rule, class, detail string) { mk(rule, detail) })
+	var e sipsp.ErrorHdr
+	var n, cnt int
+	var gotN int
+	var gname, gval []byte
+	if hdrs {
+		var l sipsp.URIHdrsLst
+		l.Init(make([]sipsp.URIHdr, 4))
+		n, cnt, e = sipsp.ParseAllURIHdrs(buf, 0, &l, sipsp.POptFlags(flags))
+		gotN, gname, gval = l.N, safeGet(buf, l.Hdrs[0].Name), safeGet(buf, l.Hdrs[0].Val)
+	} else {
+		var l sipsp.URIParamsLst
+		l.Init(make([]sipsp.URIParam, 4))
+		n, cnt, e = sipsp.ParseAllURIParams(buf, 0, &l, sipsp.POptFlags(flags))
+		gotN, gname, gval = l.N, safeGet(buf, l.Params[0].Param.Name), safeGet(buf, l.Params[0].Param.Val)
+	}
+	if allowed {
+		if !successLike(e) || gotN != 2 || string(gname) != name || string(gval) != val {
+			mk("documented-byte-accepted", fmt.Sprintf("byte %#x in %s: %q -> (%d,%d,%v) N=%d first %q=%q", x, pos, buf, n, cnt, e, gotN, gname, gval))
+		}
+	} else if successLike(e) || e == sipsp.ErrHdrMoreBytes {
+		if x == '"' && inValue {
+			return
+		}
+		mk("undocumented-byte-rejected", fmt.Sprintf("byte %#x in %s absorbed: %q -> (%d,%d,%v) N=%d first %q=%q", x, pos, buf, n, cnt, e, gotN, gname, gval))
+	}
+	return
+}
+
+func c17BytesWrappers(r *Run) {
+	C, Q, S, E, up := uint(sipsp.POptTokCommaTermF), uint(sipsp.POptTokQmTermF), uint(sipsp.POptTokSpTermF), uint(sipsp.POptInputEndF), uint(sipsp.POptTokURIParamF)
+	for _, hdrs := range []bool{false, true} {
+		fls := []uint{0, E, S, C, C | E, up, up | E, Q, Q | E}
+		if hdrs {
+			fls = []uint{0, E, S, C, C | E}
+		}
+		for _, fl := range fls {
+			for x := 0; x < 256; x++ {
+				for _, iv := range []bool{false, true} {
+					r.St.Evals++
+					r.St.Transitions++
+					for _, v := range evalC17ByteWrapper(byte(x), iv, hdrs, fl) {
+						r.Col.add(v)
+					}
+				}
+			}
+		}
+	}
+}
+
+func init() {
+	replayers["C17bytew"] = func(prop string, c *Case) []*Violation {
+		iv, _ := c.Extra["in_value"].(bool)
+		h, _ := c.Extra["hdrs"].(bool)
+		return evalC17ByteWrapper(c.input()[0], iv, h, c.Cfg.Flags)
 	}
 }
